@@ -149,13 +149,16 @@ def run(ctx):
     # (d) out-of-range pointers on a 2-partition disk: redirect pointers of a file's header / extension block past the partition
     #     (or, as a negative number, in front of it), then run operations that write those blocks back
     TARGETS = [800, 807, 800 + 63, 801, 1599, 2 ** 31 - 1, 2 ** 32 - 5, 2 ** 32 - 1, 2 ** 32 - 64, 2 ** 32 - 63, 2 ** 32 - 30]
-    BIGF = [("ext.ownkey", 73, 4), ("ext.parent", 73, 512 - 12), ("ext.next", 73, 512 - 8), ("ext.data0", 73, 24 + 71 * 4), ("hdr.extension", 0, 512 - 8), ("hdrkey", 0, 4)]
-    SMALLF = [("hdrkey", 0, 4), ("data0", 0, 24 + 71 * 4), ("ext", 0, 512 - 8), ("parent", 0, 512 - 12)]
+    # data pointers: the slots the operations below really read through (firstData for block 0, dataBlocks[] slot k for a seek into
+    # block k or a transfer that crosses into it; slot 0 of a table is never read by a seek to position 0)
+    BIGF = [("ext.ownkey", 73, 4), ("ext.parent", 73, 512 - 12), ("ext.next", 73, 512 - 8), ("ext.data0", 73, 24 + 71 * 4), ("hdr.extension", 0, 512 - 8), ("hdrkey", 0, 4),
+            ("ext.data1", 73, 24 + 70 * 4), ("ext.data3", 73, 24 + 68 * 4), ("hdr.first", 0, 16), ("hdr.data1", 0, 24 + 70 * 4)]
+    SMALLF = [("hdrkey", 0, 4), ("data0", 0, 24 + 71 * 4), ("ext", 0, 512 - 8), ("parent", 0, 512 - 12), ("first", 0, 16), ("data1", 0, 24 + 70 * 4), ("data2", 0, 24 + 69 * 4)]
     combos = [(True, f, t) for f in BIGF for t in TARGETS] + [(False, f, t) for f in SMALLF for t in TARGETS]
-    if ctx.tier == "thorough":
-        combos = combos * 2
+    combos_base = combos
+    combos = combos * 2          # every combination on OFS and on FFS
     for case, (big, f0, target) in enumerate(combos):
-        flav = case % 2 if ctx.tier == "quick" else rng.choice([0, 1])
+        flav = (case // len(combos_base)) % 2
         bs = 512 if flav & 1 else 488
         first0, size0 = 64, 800
         L = gen.dev_create("PART:120:2:16:2,25;27,25", flav) + ["mountdev 0", "mount 0 0",
@@ -166,10 +169,11 @@ def run(ctx):
         hdr = size0 // 2 + 2
         field = (f0[0], hdr + f0[1], f0[2])
         if big:
-            ops = ["open 0 - %s rw" % hexs("victim"), "seek 0 %d" % (75 * bs), "write 0 9 %d" % (6 * bs), "flush 0", "seek 0 %d" % (73 * bs), "read 0 100",
-                   "trunc 0 %d" % (74 * bs), "close 0", "rm - %s" % hexs("victim")]
+            ops = ["open 0 - %s rw" % hexs("victim"), "read 0 %d" % (bs + 10), "seek 0 %d" % (75 * bs), "write 0 9 %d" % (6 * bs), "flush 0", "seek 0 %d" % (73 * bs), "read 0 100",
+                   "seek 0 %d" % (72 * bs + 5), "read 0 10", "trunc 0 %d" % (74 * bs), "close 0", "rm - %s" % hexs("victim")]
         else:
-            ops = ["open 0 - %s rw" % hexs("victim"), "seek 0 100", "write 0 9 700", "flush 0", "read 0 100", "close 0", "rm - %s" % hexs("victim")]
+            ops = ["open 0 - %s rw" % hexs("victim"), "seek 0 100", "write 0 9 700", "flush 0", "read 0 100", "seek 0 %d" % (2 * bs + 7), "read 0 10",
+                   "seek 0 %d" % (bs + 7), "read 0 10", "seek 0 0", "read 0 %d" % (3 * bs), "close 0", "rm - %s" % hexs("victim")]
         L2 = ["loaddev mem $W/img", "mountdev 0", "wlog $W/log reads", "mount 0 0"] + ops + ["umount", "wlog off", "umountdev"]
         script = "\n".join(L + ["dump $W/img0", "loaddev mem $W/img0 120 2 16",
                                 "poke32 %d %d %d fixsum 20" % (first0 + field[1], field[2], target), "dump $W/img"] + L2) + "\n"
